@@ -109,8 +109,22 @@ def c04(tier, seed):
     )
 
 
+def c03(tier, seed):
+    return generic(
+        "C03", tier, seed, level="fault_enumeration", budgets=(60, 900),
+        rule="fault = one alteration of a valid encrypted archive: every single-bit flip of every byte (scaled constants), flips around every structural "
+             "boundary / in every chunk payload and tag / every header byte plus samples (production), and chunk-level edits (swap, duplicate, delete, copy, "
+             "chunk of a twin archive, tag swap, middle dropped, truncation at chunk edges, foreign header); the normal reader is driven over every listed file "
+             "in a random order with random buffer sizes and every returned byte, name, size and hash is compared with the original; "
+             "distinct = distinct (program, alteration); non-trivial = the altered bytes differ from the original",
+        musthit=["outcome:flip:header:error_at_open", "outcome:flip:chunk_tag:error_at_open", "outcome:none:chunks:original_data_returned",
+                 "outcome:chunk_swap:chunks:error_at_open", "outcome:chunk_from_other:chunks:error_at_open"],
+    )
+
+
 PROPS = {
     "C01": c01,
+    "C03": c03,
     "C04": c04,
     "C02": c02,
     "C05": c05,
